@@ -648,7 +648,7 @@ class Exits:
                     out.append((bid, s.span, self.rvalue(self.named(s.rhs, s.extra)), s.rhs.strip()))
                 elif self.effects and s.kind == 'assign':
                     m = re.match(r'^\(+\*(_\d+)\)', s.lhs.strip())
-                    if m and self.param_root(int(m.group(1)[1:])) is not None:
+                    if m:
                         out.append((bid, s.span, 'write %s := %s' % (self.place(s.lhs), self.rvalue(self.named(s.rhs, s.extra))), 'effect'))
             t = blk.term
             if self.sinks is not None and t.kind == 'call' and self.sinks.search(mir.callee_key(t.callee)):
